@@ -109,8 +109,21 @@ def attempt(fn):
         return 'raise:%s:%s' % (type(e).__name__, e)
 
 
+def _first_reads(v):
+    """a log of flag READS only (`ok:x0201..`, codes 01 = closed, 02 = closing) reduced to the order in which each flag is first
+    read: reading a flag again with no store in between (a debug line, a repeated check) returns the same value in the
+    sequential runs compared here; what the racing threads make of a second read is the business of the C11/C12 schedules"""
+    m = re.fullmatch(r'ok:x((?:01|02)+)', v)
+    if not m:
+        return None
+    codes = re.findall('..', m.group(1))
+    return [c for i, c in enumerate(codes) if c not in codes[:i]]
+
+
 def same(py, lean):
     if py == lean:
+        return True
+    if _first_reads(py) is not None and _first_reads(py) == _first_reads(lean):
         return True
     if lean.startswith('raise:') and re.search(r'\{[^{}]*\}', lean):
         pat = '.*'.join(re.escape(p) for p in re.split(r'\{[^{}]*\}', lean))
